@@ -25,6 +25,22 @@ CLAIMS = {
    text="max_limit=7; generated stores with more/equal/fewer matches than limits {0,1,2,6,7,8,1e6,null,absent}, 1-3 filters per REQ, both backends through the REQ path; per-filter count bound (events attributable to one filter only), total bound, no truncation under the limit, recency (no omitted matching event newer than a sent one).",
    note="Ties in created_at at the cut accepted either way; frame order unconstrained; SQLite only; LMDB engine modelled.",
    tech="property-based testing with a reference matcher and limit/recency oracle"),
+ "C06": dict(cat="exploration",
+   text="Websocket-level histories of valid/invalid/duplicate/replaceable/deleting/ephemeral submissions (real signatures, long tags, integers up to 2^64) with a watcher connection, both backends, observed after writers are idle: exactly one OK per EVENT; OK true => stored, ephemeral+broadcast or superseded; authentic well-formed in-range events are accepted; OK false and duplicates leave the raw dump (events, tag rows, whole LMDB keyspace) unchanged and are not broadcast.",
+   note="Must-accept range stated in evidence assumptions (created_at < 2^31, kind <= 65535, tag strings <= 300 chars); outside it any consistent outcome is accepted. LMDB writer pumped synchronously.",
+   tech="property-based testing: stateful histories with a raw-dump before/after oracle and an independent authenticity verifier"),
+ "C08": dict(cat="exploration",
+   text="Histories over 3 authors of regular events and kind-5 deletions with own/foreign/unknown/duplicate/upper-case/short/non-hex/bare e tags in any order, both backends; per step raw-dump diff: removed subset-of (referenced and same author), superset-of (referenced, same author, strictly older); removed events served by no query nor get_event.",
+   note="Free mode (validators: []); same-timestamp/newer targets and deletion-before-target are unconstrained.",
+   tech="property-based testing: stateful histories with a frame-condition oracle over raw dumps"),
+ "C09": dict(cat="exploration",
+   text="Arrival histories over 2 authors x replaceable/regular kinds x d-values {absent,bare,'',a,ab,abc,unicode} x timestamp grid incl. duplicates, both backends, raw-dump diff after every step (older versions of the address gone; nothing of another address, no regular event, no newer version removed; newest of every address kept); exhaustive pass over every arrival order of every 3/4-event multiset in a 2-address universe.",
+   note="Free mode; equal timestamps may be resolved either way.",
+   tech="property-based testing: stateful histories + bounded-exhaustive arrival orders, store-model oracle"),
+ "C17": dict(cat="exploration",
+   text="Generated stores of boundary kinds and expiration values around an injected clock (T-1,T,T+1, 9/10/11 digits, malformed spellings, integer-typed, two tags), one pass of each backend's own collector: MUST-go / MUST-stay / MAY verdicts from an independent reading of NIP-40, index hygiene (LMDB keyspace walk, SQL orphan tag rows), ephemeral pushed live and not queryable afterwards.",
+   note="Clock injected via module-level time(); LMDB never stores ephemeral events so their removal is exercised on SQL only.",
+   tech="property-based testing with a reference verdict function and raw-dump oracle"),
 }
 NA_REASON = "check under construction in this session; will be claimed when it is quiet and sensitive"
 
